@@ -2867,10 +2867,303 @@ def handle(chk, scen, rep=None, ses=None, do_shrink=True, corpus=False):
         chk.fail(kind, sig, what, {"scenario": small})
 
 
+# ------------------------------------------------------------------------------------------------
+# part "ps": the post-selection as a PREDICATE (`Model/C16PS.lean`) — a local processor with heralds anywhere and a
+# post-selection tree (conditions on 1..3 modes with every comparison, negation, n-ary & | ^, nested) is converted by
+# `from_local_processor`; the post-selection the remote processor holds AND the one its payload carries (through
+# JSON and `deserialize`) are evaluated on every output state (<= 2 photons per mode) after relabelling and compared
+# with the user's own object on the local state (direct oracle) and with the model (`convertPost`, `Sym.denote`)
+# ------------------------------------------------------------------------------------------------
+PS_CMPS = ["==", "!=", "<", "<=", ">", ">="]
+PS_REQUIRED = ["ps:converted", "ps:heralds-inside", "ps:identity-relabelling", "ps:negation", "ps:xor", "ps:or",
+               "ps:nested", "ps:cond-on-herald-mode", "ps:empty", "ps:payload-compared", "ps:accepts-some",
+               "ps:rejects-some", "ps:mode-order-changed", "ps:malformed-refused"]
+
+
+def ps_gen_expr(rng, modes, depth):
+    if depth == 0 or rng.random() < 0.4:
+        k = min(rng.choice([1, 1, 2, 2, 3]), len(modes))
+        return ["c", sorted(rng.sample(modes, k)), rng.choice(PS_CMPS), rng.choice([0, 1, 1, 2, 3])]
+    if rng.random() < 0.25:
+        return ["not", ps_gen_expr(rng, modes, depth - 1)]
+    op = rng.choice(["and", "and", "or", "xor"])
+    return [op, [ps_gen_expr(rng, modes, depth - 1) for _ in range(rng.randint(2, 3))]]
+
+
+def ps_text(e):
+    if e is None:
+        return ""
+    if e[0] == "c":
+        return "[" + ",".join(map(str, e[1])) + "]" + e[2] + str(e[3])
+    if e[0] == "not":
+        return "(!" + ps_text(e[1]) + ")"
+    return "(" + {"and": " & ", "or": " | ", "xor": " ^ "}[e[0]].join(ps_text(x) for x in e[1]) + ")"
+
+
+def ps_walk(e):
+    if e is None:
+        return
+    yield e
+    if e[0] == "not":
+        yield from ps_walk(e[1])
+    elif e[0] != "c":
+        for x in e[1]:
+            yield from ps_walk(x)
+
+
+def ps_gen_case(rng, max_size):
+    size = rng.randint(2, max_size)
+    nh = rng.choice([0, 1, 1, 2, 2, 3])
+    nh = min(nh, size - 1)
+    hm = rng.sample(range(size), nh)
+    if rng.random() < 0.2:
+        hm = sorted(hm)
+    heralds = [[k, rng.randint(0, 1)] for k in hm]
+    # conditions read existing modes only: on a mode beyond the state the native PostSelect answers neither "0
+    # photons" nor an error (observed: `[6]==0` is False on |0,0,0,0,0>) — outside the modelled domain
+    modes = list(range(size))
+    expr = None if rng.random() < 0.08 else ps_gen_expr(rng, modes, rng.choice([0, 1, 1, 2, 2, 3]))
+    bs = [[rng.randrange(size - 1), rng.choice([0.3, 0.7, 1.1, 1.9])] for _ in range(rng.randint(1, 3))]
+    case = {"size": size, "heralds": heralds, "expr": expr, "bs": bs}
+    if rng.random() < 0.1 and heralds:
+        case["heralds"] = heralds + [[heralds[0][0], 1]]      # malformed: a herald twice on the same mode
+    return case
+
+
+def ps_states(size):
+    sts = test_states(size)
+    if len(sts) > 250:
+        r = np.random.RandomState(11)
+        sts = [sts[i] for i in sorted(r.choice(len(sts), 250, replace=False))]
+    return sts
+
+
+def ps_handler():
+    from perceval.runtime.rpc_handler import RPCHandler
+    quiet()
+    install_transport()
+    _NET[0] = FakeNet({"commands": list(METHODS)})
+    return RPCHandler("sim:verif", "https://verif.invalid", "none", None)
+
+
+def ps_real(case):
+    """-> dict: what the real code does with the case (no Lean involved)"""
+    import perceval as pcvl
+    from perceval import BasicState, PostSelect
+    from perceval.serialization import deserialize
+    size = case["size"]
+    text = ps_text(case["expr"])
+    out = {"flags": set(), "oracle": []}
+    try:
+        p = pcvl.Processor("SLOS", size)
+        for k, th in case["bs"]:
+            p.add(k, pcvl.BS(theta=th))
+        for k, v in case["heralds"]:
+            p.add_herald(k, v)
+        user = PostSelect(text)
+        p.set_postselection(PostSelect(text))
+        p.min_detected_photons_filter(0)
+    except Exception as e:
+        out["build_err"] = type(e).__name__
+        return out
+    hm = [k for k, _ in case["heralds"]]
+    sigma = [k for k in range(size) if k not in hm] + hm          # remote mode j carries local mode sigma[j]
+    out["sigma"] = sigma
+    try:
+        rp = pcvl.RemoteProcessor.from_local_processor(p, rpc_handler=ps_handler())
+        held = rp.post_select_fn
+        pl = rp.prepare_job_payload("probs")["payload"]
+        sent = deserialize(json.loads(json.dumps(pl["postselect"]))) if "postselect" in pl else None
+        u_rp = numeric_unitary(rp.linear_circuit())
+        heralds_rp = {int(k): int(v) for k, v in rp.heralds.items()}
+    except Exception as e:
+        out["convert_err"] = f"{type(e).__name__}: {e}"
+        return out
+    u_loc = numeric_unitary(p.experiment.unitary_circuit())
+    out["relabelling_confirmed"] = bool(np.allclose(u_rp, relabel(u_loc, sigma), atol=TOL)) and \
+        heralds_rp == {p.m + i: v for i, (_, v) in enumerate(case["heralds"])}
+    out["user_text"] = str(user)
+    out["held_text"] = str(held)
+    out["sent_text"] = None if sent is None else str(sent)
+    out["conds"] = post_conds(held)
+    sts = ps_states(size)
+    out["states"] = sts
+    loc, rem_held, rem_sent, tst = [], [], [], []
+    for s_ in sts:
+        t = [s_[o] for o in sigma]
+        tst.append(t)
+        a = bool(user(BasicState(s_)))
+        b = bool(held(BasicState(t)))
+        c = None if not isinstance(sent, PostSelect) else bool(sent(BasicState(t)))
+        loc.append(a)
+        rem_held.append(b)
+        rem_sent.append(c)
+        if a != b and not any(o[0] == "postselect-not-preserved" for o in out["oracle"]):
+            out["oracle"].append(("postselect-not-preserved",
+                                  f"local processor (heralds {case['heralds']}) post-selection {user} "
+                                  f"{'accepts' if a else 'rejects'} the output {s_}; the converted processor's "
+                                  f"post-selection {held} says the opposite on the corresponding state {t}"))
+        if c is not None and a != c and not any(o[0] == "postselect-sent-differs" for o in out["oracle"]):
+            out["oracle"].append(("postselect-sent-differs",
+                                  f"post-selection {user} of the local processor (heralds {case['heralds']}) is "
+                                  f"transmitted as {sent}: on the output {s_} / {t} they disagree"))
+    if sent is None or not isinstance(sent, PostSelect):
+        out["oracle"].append(("postselect-not-sent", f"post-selection {user} configured, payload carries {sent!r}"))
+    out.update(local=loc, held=rem_held, sent=rem_sent, tstates=tst)
+    return out
+
+
+def ps_request(case):
+    return {"part": "ps", "expr": case["expr"], "m": case["size"] - len(case["heralds"]), "size": case["size"],
+            "heralds": case["heralds"], "states": ps_states(case["size"])}
+
+
+def ps_judge(chk, case):
+    """-> (real, failures [(kind, sig, what)])"""
+    real = ps_real(case)
+    rep = chk.lean.ask(ps_request(case))
+    fl = []
+    if "build_err" in real:
+        if "err" not in rep:
+            fl.append(("broken", "ps-model-accepts-refused", f"the local processor cannot be built "
+                       f"({real['build_err']}), the model answers {json.dumps(rep)[:200]}"))
+        else:
+            real["flags"].add("ps:malformed-refused")
+        return real, fl
+    if "err" in rep:
+        fl.append(("broken", "ps-model-refuses", f"the model refuses ({rep['err']}) a processor the code builds"))
+        return real, fl
+    if "convert_err" in real:
+        fl.append(("violation", "from-local-raises", f"from_local_processor / prepare_job_payload raised "
+                   f"{real['convert_err']} for heralds {case['heralds']} post-selection {ps_text(case['expr'])!r}"))
+        return real, fl
+    for sig, what in real["oracle"]:
+        fl.append(("violation", sig, what))
+    if not real["relabelling_confirmed"]:
+        fl.append(("broken", "ps-relabelling-unconfirmed", f"the circuit / heralds of the converted processor are not "
+                   f"the local ones under the relabelling {real['sigma']}"))
+    if rep["relabel"] != real["sigma"]:
+        fl.append(("broken", "ps-model-relabelling", f"model relabelling {rep['relabel']}, expected {real['sigma']}"))
+    if rep["tstates"] != real["tstates"]:
+        fl.append(("broken", "ps-model-states", "the model relabels the states differently"))
+    if rep["local"] != real["local"]:
+        i = [a == b for a, b in zip(rep["local"], real["local"])].index(False)
+        fl.append(("broken", "ps-model-eval", f"{real['user_text']} on {real['states'][i]}: code "
+                   f"{real['local'][i]}, model {rep['local'][i]}"))
+    for key in ("held", "sent"):
+        if any(v is None for v in real[key]):
+            continue
+        for mk in ("remote", "denote"):
+            if rep[mk] != real[key]:
+                i = [a == b for a, b in zip(rep[mk], real[key])].index(False)
+                fl.append(("broken", f"ps-model-{mk}-{key}", f"converted post-selection {real[key + '_text']} on "
+                           f"{real['tstates'][i]}: code {real[key][i]}, model ({mk}) {rep[mk][i]}"))
+                break
+    if (rep["conds"] or []) != real["conds"]:
+        fl.append(("broken", "ps-model-conds", f"condition mode sets: code {real['conds']} ({real['held_text']}), "
+                   f"model {rep['conds']}"))
+    # what was exercised
+    fg = real["flags"]
+    fg.add("ps:converted")
+    hm = [k for k, _ in case["heralds"]]
+    if hm and sorted(hm) != list(range(case["size"] - len(hm), case["size"])):
+        fg.add("ps:heralds-inside")
+    if real["sigma"] == list(range(case["size"])):
+        fg.add("ps:identity-relabelling")
+    if case["expr"] is None:
+        fg.add("ps:empty")
+    for e in ps_walk(case["expr"]):
+        if e[0] == "not":
+            fg.add("ps:negation")
+        elif e[0] in ("xor", "or"):
+            fg.add("ps:" + e[0])
+        if e[0] != "c" and any(x[0] != "c" for x in (e[1] if e[0] != "not" else [e[1]])):
+            fg.add("ps:nested")
+        if e[0] == "c":
+            if any(k in hm for k in e[1]):
+                fg.add("ps:cond-on-herald-mode")
+            inv = {o: j for j, o in enumerate(real["sigma"])}
+            img = [inv.get(k, k) for k in e[1]]
+            if img != sorted(img):
+                fg.add("ps:mode-order-changed")
+    if all(v is not None for v in real["sent"]):
+        fg.add("ps:payload-compared")
+    if any(real["local"]):
+        fg.add("ps:accepts-some")
+    if not all(real["local"]):
+        fg.add("ps:rejects-some")
+    return real, fl
+
+
+def ps_shrink(chk, case, sig):
+    def fails(c):
+        try:
+            return any(f[1] == sig for f in ps_judge(chk, c)[1])
+        except Exception:
+            return False
+    cur = copy.deepcopy(case)
+    for _ in range(40):
+        cands = []
+        for e in list(ps_walk(cur["expr"]))[1:]:
+            cands.append(dict(cur, expr=e))
+        for i in range(len(cur["heralds"])):
+            cands.append(dict(cur, heralds=cur["heralds"][:i] + cur["heralds"][i + 1:]))
+        for i in range(len(cur["bs"])):
+            if len(cur["bs"]) > 1:
+                cands.append(dict(cur, bs=cur["bs"][:i] + cur["bs"][i + 1:]))
+        for c in cands:
+            if fails(c):
+                cur = copy.deepcopy(c)
+                break
+        else:
+            break
+    return cur
+
+
+def ps_handle(chk, case, do_shrink=True):
+    real, fl = ps_judge(chk, case)
+    for f in real["flags"]:
+        chk.branch(f)
+    chk.count("ps:size", case["size"])
+    chk.count("ps:heralds", len(case["heralds"]))
+    chk.case(("ps", case["size"], json.dumps(case["heralds"]), ps_text(case["expr"])),
+             "local" in real and any(real["local"]) and not all(real["local"]),
+             {"ps_case": case} if case["expr"] is not None and case["heralds"] else None)
+    seen = set()
+    for kind, sig, what in fl:
+        if sig in seen:
+            continue
+        seen.add(sig)
+        already = sum(1 for f in chk.failures if f[1] == sig)
+        if already >= 3:
+            continue                      # the same finding again: three witnesses are enough
+        small = ps_shrink(chk, case, sig) if do_shrink and already == 0 else case
+        chk.fail(kind, sig, what, {"ps_case": small})
+
+
+def run_ps_part(chk):
+    rng = chk.rng
+    n = chk.pick(160, 1600)
+    max_size = chk.pick(6, 7)
+    for _ in range(n):
+        ps_handle(chk, ps_gen_case(rng, max_size))
+
+
 def load_corpus():
     out = []
     for p in sorted(glob.glob(os.path.join(core.VERIF, "corpus", "C16", "*.json"))):
-        out.append(json.load(open(p))["scenario"])
+        d = json.load(open(p))
+        if "scenario" in d:
+            out.append(d["scenario"])
+    return out
+
+
+def load_part_corpus(key):
+    out = []
+    for p in sorted(glob.glob(os.path.join(core.VERIF, "corpus", "C16", "*.json"))):
+        d = json.load(open(p))
+        if key in d:
+            out.append(d[key])
     return out
 
 
@@ -2978,7 +3271,7 @@ def run(chk: core.Check):
                              "cleared", "cleared:no-modes", "cleared-then-add", "cleared-then-set-circuit",
                              "clear-refused-size", "clear-between-payloads", "set-parameters",
                              "set-parameters-refused", "thresholded-set", "thresholded-refused",
-                             "payload-parameters-compared"]
+                             "payload-parameters-compared"] + PS_REQUIRED
     chk.lean = core.LeanDriver("C16")
     for scen in load_corpus():
         handle(chk, scen, corpus=True)
@@ -3003,6 +3296,10 @@ def run(chk: core.Check):
         for scen, ses, rep in zip(scens, sess, reps):
             handle(chk, scen, rep, ses)
         done += batch
+    # the post-selection as a predicate (drawn after the sessions: the sessions of a seed stay the ones of earlier rounds)
+    for case in load_part_corpus("ps_case"):
+        ps_handle(chk, case)
+    run_ps_part(chk)
     if chk.branches.get("discarded", 0) > 0.03 * n:
         raise RuntimeError(f"{chk.branches['discarded']} of {n} generated scenarios were discarded (generator out of "
                            f"its valid domain)")
@@ -3011,4 +3308,7 @@ def run(chk: core.Check):
 def replay(chk, data):
     chk.lean = core.LeanDriver("C16")
     chk.rule = "replay of one stored scenario"
+    if "ps_case" in data["replay"]:
+        ps_handle(chk, data["replay"]["ps_case"], do_shrink=False)
+        return
     handle(chk, data["replay"]["scenario"], do_shrink=False)
